@@ -531,11 +531,67 @@ def oracle_c29(ctx, budget_s):
                      "search uses a timer thread)")
     def gen(g):
         r = ctx.rng.random()
-        if r < 0.75:
-            return O.gen_leaf(g, kinds=["MinimumTrials"], want_derived=ctx.rng.choice([0, 1, 1]), allow_weights=ctx.rng.random() < 0.3)
+        if r < 0.8:
+            d = O.gen_leaf(g, kinds=[], want_derived=ctx.rng.choice([0, 1, 1]), allow_weights=ctx.rng.random() < 0.3)
+            fsx = OD._fmap(d)
+            der = [f for f in d["factors"] if f["window"] and f["window"]["kind"] in ("within", "transition") and len(f["window"]["deps"]) == 1]
+            if der and ctx.rng.random() < 0.6:
+                f = ctx.rng.choice(der)
+                if f["id"] not in d["block"]["crossing"]:
+                    d["block"]["crossing"] = [c for c in d["block"]["crossing"] if c not in f["window"]["deps"]][:1] + [f["id"]]
+                if ctx.rng.random() < 0.6:
+                    for l in f["levels"]:
+                        l["w"] = ctx.rng.choice([1, 2, 3])
+            return d
         return O.gen_design(g)
+    # SMGen keeps module-level state: the same structure with different derived-level weights, back to back in one process
+    for kind in ("within", "transition"):
+        for (wa, wb) in (((2, 1), (3, 1)), ((1, 2), (2, 1)), ((3, 1), (1, 1))):
+            pair = []
+            for ws in (wa, wb, wa):
+                col, wrd = O._sf(0, ["r", "g"]), O._sf(1, ["r", "g"])
+                if kind == "within":
+                    eq = [0] * 9
+                    eq[4] = eq[8] = 1
+                    der = {"id": 2, "name": "f2", "window": {"deps": [0, 1], "width": 1, "stride": 1, "start": None, "kind": "within"},
+                           "levels": [{"name": "con", "w": ws[0], "table": eq}, {"name": "inc", "w": ws[1], "table": [1 - x for x in eq]}]}
+                else:
+                    der = O._transition(2, 0, 2)
+                    der["levels"][0]["w"], der["levels"][1]["w"] = ws
+                dsc = {"factors": [col, wrd, der], "block": {"k": "cross", "design": [0, 1, 2], "crossing": [0, 2] if kind == "within" else [1, 2], "rcc": True, "cs": []}}
+                c = O.Case(ctx, dsc)
+                if c.build():
+                    c.regs = OD.regions(dsc, c.geo)
+                    pair.append(c)
+            res = O.synth_sequence([{"desc": c.desc, "n": 2, "strategy": "SMGen"} for c in pair], timeout=60)
+            ctx.count("C29.stateful-sequences")
+            for c, r in (zip(pair, res) if res is not None else []):
+                _c29_judge(ctx, c, r)
+                if ctx.failures:
+                    return
+    batch = []
+    def flush():
+        """run the collected designs one after the other in ONE child process (SMGen keeps module-level state)"""
+        res = O.synth_sequence([{"desc": c.desc, "n": 2, "strategy": "SMGen"} for c in batch], timeout=40 * len(batch))
+        out = list(zip(batch, res)) if res is not None else [(c, ("timeout",)) for c in batch]
+        del batch[:]
+        return out
+    pending = []
     for case in gen_cases(ctx, budget_s, max_trials=6, gen_fn=gen, corpus=False):
-        r = O.synth_isolated(case.desc, 2, "SMGen", timeout=25)
+        batch.append(case)
+        if len(batch) < 3:
+            continue
+        pending = flush()
+        for case, r in pending:
+            _c29_judge(ctx, case, r)
+            if ctx.failures:
+                return
+    for case, r in (flush() if batch else []):
+        _c29_judge(ctx, case, r)
+
+
+def _c29_judge(ctx, case, r):
+    if True:
         ctx.count("C29." + r[0])
         known = None
         ks = {c["k"] for c in D.all_constraints(case.desc["block"])}
@@ -734,6 +790,67 @@ def oracle_c18(ctx, budget_s):
                         {"other": descs[1 - i]["block"], "order": list(order)}, known)
         ctx.case(("C18", json.dumps(descs, sort_keys=True)), True,
                  sample={"shared_constraint": shared_c, "blocks": [d["block"] for d in descs]} if len(ctx.samples) < 3 else None)
+        if ctx.failures:
+            return
+
+
+def oracle_c18_blocks(ctx, budget_s):
+    """Block and MinimumTrials objects reused across Nest / Repeat / Merge / CrossBlock constructions."""
+    rng = ctx.rng
+    ctx.rules.append("C18 oracle (blocks): one outer block object and one MinimumTrials object are reused in a "
+                     "random sequence of constructions (Nest twice, Repeat, Merge, a second CrossBlock); every block "
+                     "must have the trial count and exhausted set of the same expression built from fresh objects")
+    t_end = ctx.elapsed() + budget_s
+    while ctx.elapsed() < t_end:
+        o = O._sf(0, ["o1", "o2", "o3"][:rng.choice([2, 2, 3])])
+        i1 = O._sf(10, ["i1", "i2", "i3"][:rng.choice([2, 3])])
+        u = O._sf(11, ["u", "v"])
+        mt = {"k": "MinimumTrials", "n": rng.choice([2, 4, 4, 6]), "obj": "mt"}
+        ocs = [mt] + ([{"k": "Pin", "idx": 0, "f": 0, "l": 0, "obj": "pin"}] if rng.random() < 0.3 else [])
+        outer = {"k": "cross", "design": [0], "crossing": [0], "rcc": True, "cs": ocs, "obj": "outer"}
+        inner = {"k": "cross", "design": [10, 11], "crossing": [10], "rcc": True, "cs": [], "obj": "inner"}
+        factors = [o, i1, u]
+        exprs = [
+            {"k": "nest", "outer": outer, "inner": inner, "cs": [], "align": None},
+            {"k": "nest", "outer": outer, "inner": inner, "cs": [], "align": None},
+            {"k": "cross", "design": [0], "crossing": [0], "rcc": True, "cs": [mt]},
+            {"k": "repeat", "b": outer, "cs": []},
+            {"k": "merge", "bs": [outer], "cs": [], "mode": "repeat", "align": None},
+        ]
+        order = [exprs[j] for j in rng.sample(range(len(exprs)), rng.randint(2, 4))]
+        if not any(e["k"] == "nest" for e in order):
+            order.insert(0, exprs[0])
+        built = D.Built()
+        desc0 = {"factors": factors}
+        for f in factors:
+            built.factors[f["id"]] = D.build_factor(desc0, f["id"], built)
+        shared = {}
+        ctx.count("C18.block-histories")
+        for step, e in enumerate(order):
+            dsc = {"factors": factors, "block": e}
+            fresh = _exh(ctx, json.loads(json.dumps(dsc)))
+            try:
+                blk = quiet(D.build_block, dsc, e, built, shared)
+                n_shared = blk.trials_per_sample()
+                exps = O.synth(blk, O.CAP_SOLUTIONS + 1, "IterateSATGen", timeout=40)
+                got = ("ok", multiset([D.exp_to_seq(dsc, x)[0] for x in exps])) if len(exps) <= O.CAP_SOLUTIONS else ("toomany",)
+            except O.CallTimeout:
+                continue
+            except Exception as ex:
+                got = ("exc", type(ex).__name__)
+            ctx.case(("C18b", json.dumps(order, sort_keys=True), step), True,
+                     sample={"constructions": [x["k"] for x in order], "shared": ["outer block", "MinimumTrials"]} if len(ctx.samples) < 3 else None)
+            if fresh[0] in ("toomany", "timeout") or got[0] == "toomany":
+                continue
+            if got[0] != fresh[0] or (got[0] == "ok" and got[1] != fresh[1]):
+                case = O.Case(ctx, dsc)
+                case.regs = set()
+                known = "F4" if any(c.get("obj") == "pin" for c in ocs) else None
+                report(ctx, "sharing", case, "construction %d (%s) of %s with reused block/MinimumTrials objects: %s; with fresh objects: %s" % (
+                    step, e["k"], [x["k"] for x in order],
+                    got[0] if got[0] != "ok" else "%d solutions" % sum(got[1].values()),
+                    fresh[0] if fresh[0] != "ok" else "%d solutions" % sum(fresh[1].values())), {"order": order}, known)
+                break
         if ctx.failures:
             return
 
